@@ -3,7 +3,7 @@
 # every claimed check (quick) against it.  Prints, per seed, which properties raised an alarm.
 cd /verif
 [ -x bin/gtcheck ] || ./build.sh
-SNAP=$(mktemp /tmp/gtcheck.snap.XXXXXX); cp bin/gtcheck $SNAP; export GTCHECK_BIN=$SNAP; trap "rm -f $SNAP" EXIT
+SNAP=$(mktemp /tmp/gtcheck.snap.XXXXXX); cp bin/gtcheck $SNAP; chmod +x $SNAP; export GTCHECK_BIN=$SNAP; trap "rm -f $SNAP" EXIT
 PROPS=$(python3 -c "import json;print(' '.join(c['property_id'] for c in json.load(open('MANIFEST.json'))['checks']))" 2>/dev/null)
 [ -n "$SEEDTEST_PROPS" ] && PROPS="$SEEDTEST_PROPS"
 SEEDS="$@"; [ -z "$SEEDS" ] && SEEDS=$(cd seeded && ls -d */ | tr -d /)
